@@ -479,7 +479,7 @@ Definition next_addresses (st : state) (s : scope) (sch : schema) (a n : N) (int
       match x_derive ak branch with
       | None => Err st EKeyChain
       | Some bk =>
-        if n =? 0 then Err st EPanic              (* onCommit indexes addressInfo[len-1]; never exercised *)
+        if n =? 0 then Err st EPanic              (* onCommit indexes addressInfo[len-1]: a crash; see MgrCorr.zero_request *)
         else
         bind (make_objs st s fmt ai bk a (child_num (x_skey ak)) branch (ai_fp ai) internal
                         (index_range next (N.to_nat n))) (fun st objs =>
